@@ -164,6 +164,66 @@ def eval_point(acc, arm, ref, case, th):
         flag("link_weight_moments", rel(t_with - t_plain, add), 1e-8 * max(1.0, float(np.abs(add).max())))
 
 
+def eval_pairs(acc, arm, ref, case, th):
+    """Every ordered pair (A, B) of Jacobian / statics queries on ONE arm object with SHARED argument objects (the same
+    theta array, the same Wrench): B's answer must still be the oracle's, and the shared arguments must come back
+    unchanged.  A == B covers calling a query twice.  (Queries that cache, or that scribble on the cached tool pose, on
+    the stored joint vector or on their arguments, are only wrong for the *next* caller.)"""
+    from basic_robotics.general import Wrench
+    n = ref.n
+    S_space = poe.space_screws(ref.base, ref.S)
+    J = poe.jac_space(S_space, th)
+    T = ref.fk(th)
+    jn = max(1.0, float(np.linalg.norm(J)))
+    sp = max(1.0, float(np.abs(T[:3, 3]).max()))
+    E = np.eye(4)
+    E[:3, 3] = T[:3, 3]
+    Fv = WBASIS[-1]
+    qd = np.linspace(0.7, -1.1, n)
+    have_links = bool(ref.L) and len(ref.L) >= n
+    am = arm
+    have_mass = (getattr(am, "_link_masses", None) is not None and len(np.atleast_1d(am._link_masses)) >= n + 1
+                 and len(am._link_mass_grav_centers) >= n + 1)
+    Q = {
+        "FK": (lambda a, q, W, v: a.FK(q).gTM(), T, 1e-7 * sp),
+        "jacobian": (lambda a, q, W, v: a.jacobian(q), J, 1e-9 * jn),
+        "jacobianBody": (lambda a, q, W, v: a.jacobianBody(q), se3.adj(se3.tinv(T)) @ J, 1e-8 * jn * sp),
+        "jacobianEETrans": (lambda a, q, W, v: a.jacobianEETrans(q), se3.adj(se3.tinv(E)) @ J, 1e-8 * jn * sp),
+        "numericalJacobian": (lambda a, q, W, v: a.numericalJacobian(q), J, 1e-4 * jn),
+        "velocityAtEndEffector": (lambda a, q, W, v: np.asarray(a.velocityAtEndEffector(v, q), float).reshape(-1), J @ qd, 1e-9 * jn * 2),
+        "staticForces": (lambda a, q, W, v: np.asarray(a.staticForces(W, q), float).reshape(-1), J.T @ Fv, 1e-9 * jn * 5),
+    }
+    if have_links:
+        for i in sorted({0, n - 1}):
+            T_link = ref.base @ poe.poe(ref.S, th, upto=i + 1) @ ref.L[i]
+            want = np.hstack((se3.adj(se3.tinv(T_link)) @ J[:, :i + 1], np.zeros((6, n - i - 1))))
+            Q["jacobianLink%d" % i] = (lambda a, q, W, v, i=i: a.jacobianLink(i, q), want, 1e-8 * jn * max(1.0, float(np.abs(T_link[:3, 3]).max())))
+    if have_mass:
+        a0 = copy.deepcopy(arm)
+        base_val = np.asarray(a0.staticForcesWithLinkMasses(Wrench(Fv.copy()), th.copy()), float).reshape(-1)
+        Q["staticForcesWithLinkMasses"] = (lambda a, q, W, v: np.asarray(a.staticForcesWithLinkMasses(W, q), float).reshape(-1),
+                                           base_val, 1e-8 * max(1.0, float(np.abs(base_val).max())))
+    names = list(Q)
+    for A in names:
+        for B in names:
+            a = copy.deepcopy(arm)
+            q, W, v = th.copy(), Wrench(Fv.copy()), qd.copy()
+            try:
+                Q[A][0](a, q, W, v)
+                got = Q[B][0](a, q, W, v)
+            except Exception as e:
+                acc.violation("raised", dict(case, pair=[A, B]), repr(e))
+                continue
+            acc.evals += 1
+            err = rel(got, Q[B][1])
+            if not (err <= Q[B][2]):
+                acc.violation("query_after_query", dict(case, pair=[A, B]), err, Q[B][2])
+            marg = max(rel(q, th), rel(np.asarray(W.data, float).reshape(-1), Fv), rel(v, qd))
+            if not (marg <= 0.0):
+                acc.violation("shared_argument_modified", dict(case, pair=[A, B]), marg, 0.0)
+    acc.outcome("query_pairs", len(names) ** 2)
+
+
 def work(p):
     arms = arms_for(p["tier"], p["seed"])
     H = histories()
@@ -183,6 +243,8 @@ def work(p):
             thc = ref.clamp(th)
             try:
                 eval_point(acc, arm, ref, case, thc)
+                if len(H[hi]) <= 1 and tn in ("g1", "q"):
+                    eval_pairs(acc, arm, ref, case, thc)
             except Exception as e:
                 import traceback
                 acc.violation("raised", case, repr(e) + traceback.format_exc()[-400:])
@@ -199,7 +261,7 @@ def run(ctx):
         m = lattice.run(ctx, pool, MOD, "work", len(arms) * len(H), nshards=pool.workers * 2, part="jacobians")
     lattice.fill(ctx, [("jacobians", m)],
                  "arms x all structural histories of length <= 2 over {move x2, setArbitraryHome x3 (offset+turn, offset only, turn only), restoreOriginalEE} x joint-vector palette; "
-                 "per point: 6 Jacobian variants, all link indices, velocity and statics on the complete rate / wrench bases (+1 generic each); "
+                 "in the 7 states of history length <= 1 additionally every ordered pair of queries on one arm object with shared arguments; per point: 6 Jacobian variants, all link indices, velocity and statics on the complete rate / wrench bases (+1 generic each); "
                  "non-trivial = non-zero joint vector or non-empty history",
                  {"arms": len(arms), "histories": len(H), "wrench_basis": len(WBASIS)})
     ctx.assumptions += ["derivative by Richardson-extrapolated central differences of the library's own FK with steps 1e-4 and 2e-4",
@@ -217,6 +279,8 @@ def replay(rec):
         pts = theta_points(ref, rec.get("seed", 0))
         if c.get("theta"):
             eval_point(acc, arm, ref, c, ref.clamp(pts[c["theta"]]))
+            if c.get("pair"):
+                eval_pairs(acc, arm, ref, {k: v for k, v in c.items() if k != "pair"}, ref.clamp(pts[c["theta"]]))
     except Exception as e:
         acc.violation("raised", c, repr(e))
-    return [v for v in acc.viols if v["clause"] == rec["clause"]]
+    return [v for v in acc.viols if v["clause"] == rec["clause"] and (not c.get("pair") or v["case"].get("pair") == c.get("pair"))]
